@@ -73,3 +73,24 @@ package exit
 //@ ensures forall j in 0..len(h.cfg.AllowedRoutes): netKey(h.cfg.AllowedRoutes[j]) != netKey(network)
 //@ ensures result ==> exists j in 0..old(len(h.cfg.AllowedRoutes)): netKey(old(h.cfg.AllowedRoutes[j])) == netKey(network)
 //@ ensures (exists j in 0..old(len(h.cfg.AllowedRoutes)): netKey(old(h.cfg.AllowedRoutes[j])) == netKey(network)) ==> result
+
+// ---- C07: the return path reads at most one frame's worth of plaintext and forwards exactly it ----
+//
+// Each successful read of n bytes is sealed as one message buf[0:n] (n <= 16356,
+// so the ciphertext is at most 16384 bytes and WriteStreamData emits it as a
+// single frame) and handed to the stream writer for this connection's peer and
+// stream, in the order read.
+
+//@ func StreamWriter.WriteStreamData
+//@ trusted interface method: implemented by (*Agent).WriteStreamData, which is under contract in package agent; changes no handler state
+
+//@ func (*Handler).readLoop
+//@ prop C07
+//@ modifies *
+//@ at call net.Conn.Read assert base($1) == base(buf) && offset($1) == offset(buf) && len($1) <= 16356
+//@ after call net.Conn.Read let nRead = $ret0
+//@ at call Encrypt assert base($1) == base(buf) && offset($1) == offset(buf) && len($1) == nRead && nRead <= 16356
+//@ after call Encrypt let ct = $ret0
+//@ at call StreamWriter.WriteStreamData#0 assert $3 == ct && len($3) <= 16384 && $1 == ac.RemoteID && $2 == ac.StreamID && $4 == 0
+//@ at call StreamWriter.WriteStreamData#1 assert len($3) == 0 && $1 == ac.RemoteID && $2 == ac.StreamID && $4 == 1
+//@ census[C07] StreamWriter.WriteStreamData in (*Handler).readLoop
